@@ -39,8 +39,8 @@ def cls_tokens(v_or_cls):
 
 
 def val_tokens(v):
-    from pytezos.michelson.types import (AddressType, BigMapType, ListType, MapType, NatType, OptionType, PairType, StringType, TicketType,
-                                         UnitType)
+    from pytezos.michelson.types import (AddressType, BigMapType, BoolType, ListType, MapType, NatType, OptionType, OrType, PairType, SetType,
+                                         StringType, TicketType, UnitType)
     if v is None:
         return ['?']
     if isinstance(v, NatType):
@@ -51,6 +51,17 @@ def val_tokens(v):
         return ['S' + (str(v).encode().hex() or '-')]
     if isinstance(v, UnitType):
         return ['U']
+    if isinstance(v, BoolType):
+        return ['B1' if bool(v) else 'B0']
+    if isinstance(v, OrType):
+        if v.is_left():
+            return ['left'] + val_tokens(v.items[0]) + cls_tokens(type(v).args[1])
+        return ['right'] + cls_tokens(type(v).args[0]) + val_tokens(v.items[1])
+    if isinstance(v, SetType):
+        out = [f'E{len(v.items)}'] + cls_tokens(type(v).args[0])
+        for x in v.items:
+            out += val_tokens(x)
+        return out
     if isinstance(v, PairType):
         return ['P'] + val_tokens(v.items[0]) + val_tokens(v.items[1])
     if isinstance(v, TicketType):
@@ -278,13 +289,16 @@ def run(ctx):
     quick = ctx.tier == 'quick'
     ctx.extra['rule'] = (
         'programs of 1-3 segments (two ticketer addresses) over TICKET/READ_TICKET/SPLIT_TICKET/JOIN_TICKETS/PAIR/UNPAIR/CAR/CDR/SOME/NONE/'
-        'IF_NONE/CONS/NIL/ITER/MAP/DUP/DUP n/SWAP/DIG/DUG/DROP/DIP/DIP n/PUSH/EMPTY_MAP/EMPTY_BIG_MAP/GET/GET_AND_UPDATE/UPDATE/FAILWITH; '
+        'IF_NONE/CONS/NIL/ITER/MAP/DUP/DUP n/SWAP/DIG/DUG/DROP/DIP/DIP n/PUSH (incl. set / map literals, sorted or not)/EMPTY_MAP/EMPTY_BIG_MAP/'
+        'GET/GET_AND_UPDATE/UPDATE/LEFT/RIGHT/IF_LEFT/EMPTY_SET/MEM/FAILWITH; '
         'type-directed generation (amounts 0,1,2,3,5,2^64,10^30; contents nat/string/unit/pair nat string; splits that add up, with a zero '
-        'part, or not; joins of matching / other-ticketer / other-contents / other-type tickets; tickets stored in lists, maps, big_maps) '
+        'part, or not; joins of matching / other-ticketer / other-contents / other-type tickets; tickets stored in lists, maps, big_maps, on either '
+        'side of an or, at the second / third type-argument position of pairs / options / lists of ors) '
         'plus a share of type-blind instructions; non-trivial = at least one ticket is minted and a ticket instruction, a copy '
         'instruction or a container instruction acts afterwards')
     ctx.assumptions += [
-        'map keys are atoms (nat/string); contents are atoms or pairs of atoms; no lambdas, sets, or-types in the modelled set',
+        'map keys and set elements are atoms (nat/string); contents are atoms or pairs of atoms; ITER / MAP over an `or` value and MAP over a '
+        'non-empty set (neither is Michelson; the real loop pushes the Undefined marker / rebuilds a set) are `unmodelled`',
         'big_map values live in the in-memory diff only (the offline context has no stored big_map); ITER over a big_map with removed keys '
         'and DUP 0 are reported as `unmodelled` by the model and not compared',
         'conservation is proved (a) for every program accepted by the static checker `wellTyped` (Michelson rules; MAP only with a body that '
@@ -313,7 +327,8 @@ def run(ctx):
             text = ' || '.join(f'[{tk[:6]}] ' + ' ; '.join(G.instr_text(i) for i in prog) for tk, prog in segs)
             outcome, found, state = evaluate(real, segs)
             ps = [p for _, prog in segs for p in G.prims(prog)]
-            nontriv = 'TICKET' in ps and any(p in ps for p in ('SPLIT_TICKET', 'JOIN_TICKETS', 'DUP', 'DUPN', 'GET', 'GET_AND_UPDATE', 'UPDATE', 'CONS', 'ITER', 'MAP', 'READ_TICKET'))
+            nontriv = 'TICKET' in ps and any(p in ps for p in ('SPLIT_TICKET', 'JOIN_TICKETS', 'DUP', 'DUPN', 'GET', 'GET_AND_UPDATE', 'UPDATE', 'CONS', 'ITER', 'MAP', 'READ_TICKET',
+                                                               'LEFT', 'RIGHT', 'IF_LEFT', 'EXEC', 'APPLY'))
             ctx.case({'program': text if len(text) < 500 else text[:500] + '…'}, nontrivial=nontriv)
             ctx.count('segments', len(segs))
             ctx.count('outcome', outcome[0])
